@@ -5,6 +5,7 @@ import contracts.trainer_detect as td
 import contracts.trainer_io as tio
 import contracts.guesser_loader as gld
 import contracts.guesser_session as gs
+import contracts.omen_loader as oml
 
 FILES = ['lib_trainer/save_pcfg_data.py', 'lib_trainer/omen/omen_file_output.py', 'lib_trainer/trainer_file_input.py',
          'lib_guesser/grammar_io.py', 'lib_scorer/grammar_io.py', 'lib_guesser/omen/input_file_io.py', 'lib_scorer/omen_scorer.py']
@@ -38,8 +39,10 @@ PROP = Prop(
     functions=[tio.TFI + ':check_valid', tio.SP + ':calculate_and_save_counter', tio.SP + ':save_indexed_counters',
                gld.GIO + ':_load_from_file',
                # 'no password accepted for training ...': what read_password yields has passed check_valid after $HEX[] decoding
-               (tio.TFIC + '.read_password#generator', install_trainer_side)],
-    lemmas=lambda: gld.groups_desc.lemmas(),
+               (tio.TFIC + '.read_password#generator', install_trainer_side),
+               # the guesser's OMEN loader returns the n-grams of IP.level / CP.level unchanged, grouped by level (and prefix)
+               (oml.IO + ':_load_ngrams#ip', None), (oml.IO + ':_load_ngrams#cp', None)],
+    lemmas=lambda: gld.groups_desc.lemmas() + oml.lemmas(),
     setup=install,
     effects=encoding_frame,
     level='other',
@@ -56,7 +59,8 @@ PROP = Prop(
         'codecs / universal-newline iteration when writer and reader use the same encoding; str.encode of such text does not raise',
         "rstrip()/split('\\t')/float(repr(p)) are uninterpreted in the deductive part: that rstrip only removes the newline and split yields exactly "
         'two fields for a TAB-free value is validated by the bounded round trip, not proved',
-        'the scorer loader (lib_scorer/grammar_io.py) and the OMEN loaders are covered by the encoding frame and the bounded stand-in only',
+        'the scorer loaders (lib_scorer/grammar_io.py, OmenScorer._load_omen) and the guesser\'s EP.level / LN.level / config readers are covered by the encoding frame '
+        'and the bounded stand-in only; _load_ngrams is under contract for IP.level and CP.level',
     ],
     explanation='Deductive: check_valid accepts only non-empty passwords without TAB, C0 controls or any character at which splitlines()/codecs break a '
                 'line (set recomputed exhaustively each run); the writer puts exactly one line value TAB repr(p) LF per item, one file per key; the '
